@@ -437,6 +437,19 @@ def every_call_is_recorded_by_value(ctx):
                       % p.describe(5), g, p.exit_node)
         else:
             n_fresh += 1
+    # a 0-d array is unsized: it must come out as its scalar (x.flatten()[0]); iter() fails on it, so the iterability test has to
+    # come AFTER the 0-d branch - otherwise the array object itself is returned and recorded (written as array(3.), unreadable)
+    first_tests = []
+    for n_ in g.node.body:
+        if isinstance(n_, ast.If):
+            first_tests.append(('if', unparse(n_.test)))
+        elif isinstance(n_, ast.Try):
+            first_tests.append(('try', unparse(n_)))
+    order = [i for i, (k_, tx) in enumerate(first_tests) if 'ndim' in tx] + [99]
+    iter_at = [i for i, (k_, tx) in enumerate(first_tests) if 'isiterable' in tx] + [99]
+    ctx.check(order[0] < iter_at[0], 'listify#0-d', 'the 0-d (ndim == 0) branch precedes the iterability test',
+              'listify tests isiterable(x) before its 0-d branch: a 0-d array is not iterable, so it is returned as it is and recorded as an ndarray (the branch that would unwrap it is dead code)',
+              g, g.node, statement='isiterable test precedes the ndim == 0 branch')
     ctx.check(n_fresh >= 2, 'listify#fresh', 'iterable inputs are rebuilt ([listify(i) for i in x] / listify(list(x)) / the 0-d element)', 'listify no longer rebuilds its input', g, g.node)
 
 
